@@ -38,6 +38,17 @@ def _reach_calls(P, f, depth=3):
     return out
 
 
+def _copy_of(f, l, target, depth=6):
+    """l is target or a chain of plain copies / moves of it (every definition)"""
+    if l == target:
+        return True
+    if depth == 0:
+        return False
+    dfs = f.defs().get(l, [])
+    return bool(dfs) and all(d["k"] == "assign" and not d.get("partial") and d["rv"]["k"] == "use" and op_local(d["rv"]["a"]) is not None and
+                             not op_place(d["rv"]["a"])["p"] and _copy_of(f, op_local(d["rv"]["a"]), target, depth - 1) for d in dfs)
+
+
 def run(ctx, progs):
     P = progs.get("default")
     f = P.fn(FIN)
@@ -136,11 +147,18 @@ def run(ctx, progs):
                 if m:
                     kind = m.group(2)
                     # argument 0 = the bucket's key (closure parameter of the inner map), argument 1 = captured after key
-                    a0_param = any(x[0] == "arg" and x[1] >= 2 for x in Slice(g).sources(t["args"][0]))
-                    a1_upvar = any(x[0] == "field" and any(str(fl).startswith("upvar:") for fl in x[2]) for x in Slice(g).sources(t["args"][1]))
+                    def direct_upvar(o):
+                        return any(x[0] == "field" and any(str(fl).startswith("upvar:") for fl in x[2]) for x in Slice(g).sources(o))
+
+                    def from_bucket(o):
+                        # the closure's own parameter (the bucket, or the bucket's key handed to a nested closure), possibly through
+                        # the key function; never a captured value used as it is
+                        return not direct_upvar(o) and any(x[0] == "arg" and x[1] >= 2 for x in Slice(g, through_all_calls=True).sources(o))
+                    a0_param = from_bucket(t["args"][0])
+                    a1_upvar = direct_upvar(t["args"][1])
                     if kind == "gt" and a0_param and a1_upvar:
                         strict_f = True
-                    elif kind == "lt" and not a0_param:
+                    elif kind == "lt" and direct_upvar(t["args"][0]) and from_bucket(t["args"][1]):
                         strict_f = True
                     else:
                         why = "the after-filter compares with `%s`%s" % (kind, "" if (a0_param and a1_upvar) else " in an unexpected argument order")
@@ -178,18 +196,52 @@ def run(ctx, progs):
                             work.append(op_local(d["rv"]["a"]))
                         else:
                             defs.append(d)
-                some_defs = [d for d in defs if d["k"] == "call"]
+                some_defs = [d for d in defs if d["k"] == "call" or
+                             (d["k"] == "assign" and d["rv"]["k"] == "agg" and d["rv"].get("variant") == "Some")]
+
+                def def_input(d):
+                    return d["t"]["args"][0] if d["k"] == "call" else d["rv"]["ops"][0]
                 none_defs = [d for d in defs if d["k"] == "assign" and d["rv"]["k"] == "agg" and d["rv"].get("variant") == "None"]
                 hm_local = hst["dst"]["l"]
-                def controlled_by_hm(bk, want_true):
-                    for (a, succ) in f.control_deps_transitive(bk):
+                # edges: has_more true / false, and "buckets.last() is None"
+                hm_true, hm_false, last_none = set(), set(), set()
+                for a in f.reachable():
+                    t = f.blocks[a]["term"]
+                    if t["k"] == "switch" and op_local(t["on"]) is not None and _copy_of(f, op_local(t["on"]), hm_local):
+                        vals = dict(zip(t["values"], t["targets"]))
+                        true_succ = t["otherwise"] if 0 in vals else vals.get(1)
+                        for sx in f.succ(a):
+                            (hm_true if sx == true_succ else hm_false).add((a, sx))
+                from sa.prog import outcome_arms
+                for lb, lt in lasts:
+                    for a in outcome_arms(f, Site(f, lb))["switch"]:
                         t = f.blocks[a]["term"]
-                        if t["k"] == "switch" and hm_local in sl0.locals(t["on"]) | {op_local(t["on"])}:
-                            vals = dict(zip(t["values"], t["targets"]))
-                            true_succ = t["otherwise"] if 0 in vals else vals.get(1)
-                            return (succ == true_succ) == want_true
-                    return False
-                from_last = all(any(x[0] == "call" and re.search(r"::last$", callee_of(x[2])) for x in sl.sources(d["t"]["args"][0])) for d in some_defs) and bool(some_defs)
+                        vals = dict(zip(t["values"], t["targets"]))
+                        for sx in f.succ(a):
+                            if sx != vals.get(1):
+                                last_none.add((a, sx))
+
+                def reachable_without(edges):
+                    seen_, st_ = set(), [0]
+                    while st_:
+                        x = st_.pop()
+                        if x in seen_:
+                            continue
+                        seen_.add(x)
+                        for y in f.succ(x):
+                            if (x, y) not in edges:
+                                st_.append(y)
+                    return seen_
+
+                def controlled_by_hm(bk, want_true):
+                    # Some: every path to the definition takes a has_more-is-true edge.  None: every path takes a has_more-is-false
+                    # edge or the "no last bucket" edge
+                    if not hm_true or not hm_false:
+                        return False
+                    if want_true:
+                        return bk not in reachable_without(hm_true)
+                    return bk not in reachable_without(hm_false | last_none)
+                from_last = all(any(x[0] == "call" and re.search(r"::last$", callee_of(x[2])) for x in sl.sources(def_input(d))) for d in some_defs) and bool(some_defs)
                 after_cut = all(any(lb in f.reachable_from(tb) or not (tb in f.reachable_from(lb)) for lb, _ in lasts) for d in some_defs)
                 last_after_trunc = all(lb in f.reachable_from(tb) for lb, _ in lasts) and bool(lasts)
                 ak_ok = bool(some_defs) and bool(none_defs) and all(controlled_by_hm(d["b"], True) for d in some_defs) and \
